@@ -8,7 +8,7 @@ ID = 'C18'
 RULE = ('truth tables: exhaustive 2^16 byte pairs for ct_eq/ct_ne and all 256 bytes for ct_zero/ct_nonzero (bitmaps); all pairs over a 64-bit boundary set plus random for the '
         'eight u64 predicates; byte arrays N = 0..=40 equal / differing in exactly one position (every position, both directions) plus borrow-rippling patterns for ct_lt/ct_ge '
         '(big-endian order); slices and u64 arrays likewise; Choice algebra, CtOption and the selectors for Choices produced along 16 routes (from a test, negated, double negated, from integer / array / slice comparisons, from and/or/xor); masked swap/set of u64 and i32 limb arrays (hook) for both choices; MacResult / Tag '
-        'equality incl. unequal lengths; distinct = (helper, operand pattern)')
+        'equality incl. unequal lengths; byte arrays and Tags stored at every pair of byte offsets 0..7 / 0..15 of aligned buffers; distinct = (helper, operand pattern)')
 ASSUMPTIONS = ["Python's ==, <, <=, >, >= on integers and bytes"]
 FLOORS = {'evaluations': 8000, 'distinct': 6000}
 THOROUGH_ROUNDS = 300   # thorough tier: generator passes with derived seeds (runner.gen_rounds)
@@ -140,6 +140,26 @@ def gen(tier, seed):
         for tail in (bytes(d), rng.bytes(d)):
             yield 'macres_eq %s %s #macres-lendiff256' % (t.hex() or '-', (t + tail).hex())
             yield 'macres_eq %s %s #macres-lendiff256' % ((t + tail).hex(), t.hex() or '-')
+    # operand placement: the two arrays / tags live at every combination of byte offsets (the answer must not depend on where the
+    # caller keeps them: word-at-a-time comparisons split both operands by alignment)
+    for n in (1, 7, 8, 9, 15, 16, 17, 24, 31, 32, 33, 40):
+        base = rng.bytes(n)
+        for oa in range(8):
+            for ob in range(8):
+                yield 'ct_arr_at %s %s %d %d #arr-placed-equal' % (base.hex(), base.hex(), oa, ob)
+                x = bytearray(base); x[rng.below(n)] ^= 1 << rng.below(8)
+                yield 'ct_arr_at %s %s %d %d #arr-placed-onepos' % (base.hex(), bytes(x).hex(), oa, ob)
+                if (oa + ob) % 3 == 0:
+                    x = bytearray(base); x[n - 1] ^= 0x80
+                    yield 'ct_arr_at %s %s %d %d #arr-placed-last' % (bytes(x).hex(), base.hex(), oa + 8 * rng.below(3), ob + 8 * rng.below(3))
+                    x = bytearray(base); x[0] ^= 1
+                    yield 'ct_arr_at %s %s %d %d #arr-placed-first' % (base.hex(), bytes(x).hex(), oa + 8 * rng.below(3), ob + 8 * rng.below(3))
+    t = rng.bytes(16)
+    for oa in range(16):
+        for ob in range(16):
+            yield 'tag_eq_at %s %s %d %d #tag-placed-equal' % (t.hex(), t.hex(), oa, ob)
+            x = bytearray(t); x[rng.below(16)] ^= 1 << rng.below(8)
+            yield 'tag_eq_at %s %s %d %d #tag-placed-onebit' % (t.hex(), bytes(x).hex(), oa, ob)
     for _ in range(4):
         t = rng.bytes(16)
         yield 'tag_eq %s %s #tag-equal' % (t.hex(), t.hex())
@@ -181,7 +201,7 @@ def expected(f):
     if op == 'ct_u64':
         a, b = int(f[1]), int(f[2])
         return [T(a == 0), T(a != 0), T(a == b), T(a != b), T(a < b), T(a > b), T(a <= b), T(a >= b)]
-    if op == 'ct_arr':
+    if op in ('ct_arr', 'ct_arr_at'):
         a, b = expand(f[1]), expand(f[2])
         z = not any(a)
         return [T(z), T(not z), T(a == b), T(a != b), T(a < b), T(a >= b)]   # bytes compare lexicographically == big-endian for equal lengths
@@ -208,14 +228,15 @@ def expected(f):
     if op == 'macres_eq':
         e = expand(f[1]) == expand(f[2])
         return [T(e), T(e), T(not e)]
-    if op == 'tag_eq':
+    if op in ('tag_eq', 'tag_eq_at'):
         e = expand(f[1]) == expand(f[2])
         return [T(e), T(e), T(e), T(not e)]
     raise KeyError(op)
 
 
 NAMES = {'ct_u64': ['ct_zero', 'ct_nonzero', 'ct_eq', 'ct_ne', 'ct_lt', 'ct_gt', 'ct_le', 'ct_ge'],
-         'ct_arr': ['ct_zero', 'ct_nonzero', 'ct_eq', 'ct_ne', 'ct_lt', 'ct_ge']}
+         'ct_arr': ['ct_zero', 'ct_nonzero', 'ct_eq', 'ct_ne', 'ct_lt', 'ct_ge'],
+         'ct_arr_at': ['ct_zero', 'ct_nonzero', 'ct_eq', 'ct_ne', 'ct_lt', 'ct_ge']}
 
 
 def check(line, toks):
